@@ -21,7 +21,12 @@ func genHistory(c *Ctx, n int) (h []uint32, profile string) {
 	for i := range base {
 		base[i] = uint32(i + 1)
 	}
-	switch p := c.Rng.IntN(7); p {
+	p := c.Rng.IntN(7)
+	if n >= 131 {
+		// enough frames exist for the window-edge profile (a frame exactly 63 / 64 / 65 behind)
+		p = 1
+	}
+	switch p {
 	case 0: // local shuffles with duplicates
 		profile = "local-shuffle"
 		h = append(h, base...)
@@ -259,6 +264,9 @@ func runC03(c *Ctx) error {
 				return err
 			}
 			n := 3 + c.Rng.IntN(30)
+			if i%6 == 5 {
+				n = 135 // long enough for late frames exactly at the edge of the 64-frame window
+			}
 			// A seals n frames for B.
 			wire := make([][]byte, n+1)
 			for k := 1; k <= n; k++ {
@@ -372,6 +380,9 @@ func runC03(c *Ctx) error {
 			return err
 		}
 		n := 3 + c.Rng.IntN(30)
+		if i%6 == 5 {
+			n = 135
+		}
 		wire := make([][]byte, n+1)
 		for k := 1; k <= n; k++ {
 			inner := []byte(fmt.Sprintf("link-payload-%d-%d", i, k))
